@@ -127,6 +127,7 @@ def run(F, res, tier):
         has_set = any("std::collections::hash::set::HashSet" in l["ty"] for l in f.d["locals"])
         res.ob("R4", "set/" + p.rsplit("::", 1)[-1], "%s collects its result through a set keyed by (file, range): nothing is listed twice" % p.rsplit("::", 1)[-1],
                has_set, where=f.loc(), how="HashSet local present: %s" % has_set)
+    highlight_current_file(F, res, "R4")
     hl = F.fn("ide::ide::highlight_related::highlight_related")
     calls = [FL.short(callee(t) or callee_def(t)) for b, t in hl.calls()]
     res.ob("R4", "highlight-same-search", "highlight_related runs the same usage search restricted to the current file (SearchScope::single_file)",
@@ -166,3 +167,32 @@ def search_scope_rules(F, res):
     sr = F.fn("ide::def::search::FindUsages::search")
     base = any(FL.short(callee(t) or callee_def(t)) == "Definition::search_scope" for b, t in sr.calls())
     res.ob("R5", "search/uses-definition-scope", "FindUsages::search scans Definition::search_scope", base, where=sr.loc(), how=str(base))
+
+
+def highlight_current_file(F, res, rule):
+    """the usage ranges highlight_related reports are the entry of the request's own file in the search result"""
+    hl = F.fn("ide::ide::highlight_related::highlight_related")
+    d = FL.Defs(hl)
+    keyed = False
+    for b, t in hl.calls():
+        c = FL.short(callee(t) or callee_def(t))
+        if c in ("HashMap::remove", "HashMap::get", "HashMap::get_mut") and len(t["args"]) > 1:
+            ko = d.origin_op(t["args"][1])
+            if ko.get("k") == "field" and [e.get("n") for e in ko["proj"] if isinstance(e, dict)][-1:] == ["file_id"]:
+                base = ko
+                while base.get("k") == "field":
+                    base = base["base"]
+                if base.get("k") == "arg":
+                    keyed = True
+    whole = []
+    for pth in F.with_closures(hl.path):
+        f = F.fns[pth]
+        for b, t in f.calls():
+            full = (t.get("fn") or {}).get("full", "") + str((t.get("fn") or {}).get("targs", ""))
+            c = FL.short(callee(t) or callee_def(t))
+            if c in ("IntoIterator::into_iter", "HashMap::iter", "HashMap::values", "HashMap::into_values", "HashMap::drain") and \
+                    ("UsageSearchResult" in full or ("HashMap" in full and "FileId" in full and "TextRange" in full)):
+                whole.append((pth.rsplit("::", 1)[-1], t["ln"]))
+    res.ob(rule, "highlight/own-file-entry", "highlight_related takes the usage ranges of the request's own file out of the search result (a keyed lookup with fpos.file_id) "
+           "and never walks the result for all files", keyed and not whole, where=hl.loc(),
+           how="keyed lookup by fpos.file_id: %s; iterations over the whole result: %s" % (keyed, whole))
